@@ -67,3 +67,15 @@ PROPS["C08"] = dict(
     ],
     fuzz=[dict(target="FuzzC08", seconds=120)],
 )
+
+PROPS["C01"] = dict(
+    pkg="c01", level="exploration",
+    technique="rapid-generated configurations and event sets checked against a reference routing model; bounded-exhaustive sweep of two-reference configurations",
+    level_text="Exploration: configurations (all logger kinds, range strings in any case/spacing, 1-4 references in any declaration order, equal lower bounds frequent, competing loggers) are refreshed and every entry point plus Record at generated levels is logged; deliveries observed at recording appenders, console stream and files must equal, with multiplicity one, what an independent model of the property text predicts; plus all 8100 two-reference configurations over the built-in levels.",
+    level_note="Trusted: the harness's range parser/chaining model (written from the property text) and recording appender. An explicit ~MAX upper bound is generated only where it cannot be told apart from an open end (documented sentinel).",
+    rule="generated configurations x all entry points x generated levels; exhaustive two-reference sweep",
+    steps=[
+        dict(test="^Test(Regress_C01|C01_Generated)$", quick=dict(checks=3000, timeout=900), thorough=dict(checks=8000, shards=12, timeout=3000)),
+        dict(test="^TestC01_Sweep$", quick=dict(timeout=900), thorough=dict(shards=4, timeout=1800)),
+    ],
+)
